@@ -30,6 +30,9 @@ def plan(tier, seed):
         specs.append({"klass": "cond", "i": k, "exprs": chunk, "form": "direct"})
     for k, chunk in enumerate(classes.chunks(classes.literal_table(), PACK)):
         specs.append({"klass": "lit", "i": k, "exprs": chunk, "form": "direct"})
+    for k, chunk in enumerate(classes.chunks(classes.conditional_table(), PACK)):
+        # the same conditionals over identifiers that contain tokens of the generated languages (true, false, pow, fabs)
+        specs.append({"klass": "cond_names", "i": k, "exprs": chunk, "form": "direct" if k % 2 else "inter", "rename": classes.RENAME_TOKENS})
     shapes = [("chain", 6), ("chain", 25), ("chain", 60), ("diamond", 8), ("diamond", 20), ("unused", 12), ("fan", 12), ("random", 20)]
     for k, (sh, n) in enumerate(shapes):
         specs.append({"klass": "shape", "i": k, "shape": sh, "n_inter": n})
@@ -52,10 +55,10 @@ def case_text(spec, rng):
     if spec.get("text"):
         return spec["text"]
     k = spec["klass"]
-    if k in ("paren", "func", "cond", "lit"):
+    if k in ("paren", "func", "cond", "lit", "cond_names"):
         if spec.get("form") == "inter":
-            return classes.packed_model_intermediates(spec["exprs"])
-        return classes.packed_model(spec["exprs"])
+            return classes.rename(classes.packed_model_intermediates(spec["exprs"]), spec.get("rename"))
+        return classes.rename(classes.packed_model(spec["exprs"]), spec.get("rename"))
     if k == "shape":
         sp = models.gen_model(rng, Profile(), shape=spec["shape"], n_inter=spec["n_inter"], n_states=rng.choice([2, 3, 4]), depth=2)
         return sp.render(rng)
@@ -64,6 +67,10 @@ def case_text(spec, rng):
     depth = 3 if spec.get("tier") == "quick" else rng.choice([2, 3, 4, 5])
     sp = models.gen_model(rng, Profile(), depth=depth)
     return sp.render(rng)
+
+
+def single_text(spec, e):
+    return classes.rename(classes.packed_model([e]), spec.get("rename"))
 
 
 def check_model(text, rng, want=8, tier="quick", remove_unused=False):
@@ -226,13 +233,13 @@ def run_case(spec, ctx):
         vs = []
         ok_compared = 0
         for e in spec["exprs"]:
-            sub = check_model(classes.packed_model([e]), C.rng_for(spec, e), want=want, tier=tier)
+            sub = check_model(single_text(spec, e), C.rng_for(spec, e), want=want, tier=tier)
             out["evaluations"] += sub.get("evaluations", 0)
             ok_compared += sub["counters"].get("compared", 0)
             scx = sub.pop("_ctx", None) or {}
             for v in sub["violations"]:
                 v["detail"]["expression"] = e
-                v["text"] = classes.packed_model([e])
+                v["text"] = single_text(spec, e)
                 v["_cls"] = {"code": sub.get("code"), "ode": scx.get("ode"), "ref": scx.get("ref"), "recheck": recheck_fn(scx)}
                 vs.append(v)
         out["violations"] = vs
